@@ -115,3 +115,14 @@ func verifLexAll(x string) (toks []token.Token, ok bool) {
 	verifFail("lexer/too-many-tokens", "")
 	return nil, false
 }
+
+// Engine lemma (selftest): the executor's ASCII fast path for
+// utf8.DecodeRuneInString agrees with the real function.  verifNoStubs makes
+// the second call run the real body.
+func verifHarness_SelfDecodeRune() {
+	s := verifBytes(2)
+	r1, n1 := verifDecodeRune(s, false)
+	r2, n2 := verifDecodeRune(s, true)
+	verifAssert(r1 == r2 && n1 == n2, "lemma/decoderune")
+	verifReach("lemma/ok")
+}
